@@ -239,4 +239,19 @@ theorem set_value_expired_counterexample :
     syncUpdateFetch (.const (some true)) [(0, .add (.col 1) (.lit (some 1)))]
       ⟨⟨[some 1, some 2], []⟩, [1], []⟩ = .sentinel := by decide
 
+/-! ## 5. ORM bulk UPDATE by primary key -/
+
+/-- **bulk_by_pk_sync**: `session.execute(update(E), [ {pk, col: value…}, … ])` with
+    'evaluate' synchronisation: for any list of parameter sets — in any order, whether or
+    not the object of an earlier set is loaded — every loaded, unexpired attribute of every
+    in-session object still equals the database value afterwards. -/
+theorem bulk_by_pk_sync (params : List BulkParam) (slots : List Slot)
+    (h : ∀ s ∈ slots, SlotOk s) : ∀ s ∈ bulkByPk params slots, SlotOk s :=
+  bulkByPk_ok params slots h
+
+/-- an unloaded target earlier in the list does not stop the later ones -/
+example : bulkByPk [(2, [(0, some 9)]), (3, [(0, some 8)])]
+    [⟨2, [some 1], none⟩, ⟨3, [some 1], some ([some 1], [])⟩] =
+    [⟨2, [some 9], none⟩, ⟨3, [some 8], some ([some 8], [])⟩] := by decide
+
 end SaVerif.Props.C43
